@@ -221,7 +221,8 @@ theorem cell_builtin_default (n : Nat) (cfg : Core.Cfg) (fr : RFrame) (f : Strin
         | (.ok vs, st') => (cprim f vs, st')
         | (.error r, st') => (r, st')
       else (.stuck ("unknown function " ++ f), st)) := by
-  simp only [builtin]
+  rw [builtin.eq_def]
+  simp only []
   split <;> first
     | (exact absurd rfl (fun e => h.nif _ _ _ rfl e)) | (exact absurd rfl (fun e => h.nand _ _ rfl e))
     | (exact absurd rfl (fun e => h.nor _ _ rfl e)) | (exact absurd rfl (fun e => h.niferr _ _ rfl e))
